@@ -366,7 +366,7 @@ def corpus_growth_with_extra_leases():
     ls = [(1, 3000000 + i, bytes([0x21 + i]) * 32, bytes([0x31 + i]) * 32) for i in range(7)]
     ops = [["put", 0, sc.rle(sc.fabricate_mutable(2, sc.NODEID, unhx(WE), b"d" * 10, ls))], ["leases"]]
     end = 10
-    for grow in [3, 40, 279]:
+    for grow in [3, 40, 150, 279]:
         end += grow
         ops += [["rtw", 100, 10 ** 12, WE, S(0x21), S(0x31), False, [[0, [], [[end - 1, hx(b"G")]], None]], []], ["leases"], ["dump"]]
     ops += [["order"], ["renew", 200, S(0x26)], ["order"], ["addlease", 300, 10 ** 12, S(0x27), S(0x37)], ["leases"], ["dump"]]
